@@ -249,6 +249,16 @@ def _loop(kind, ctr, bound, body, flowsite):
     if kind == "for":
         return [For(Decl(INT, ctr, I(0)), B("<", c, bound), Affix("++", True, c), Block(flowsite + body))]
     inc = ExprStmt(Assign("=", c, B("+", c, I(1))))
+    # `for` with parts of its header left out (each part is optional): the missing part is written in the body
+    leave = If(B(">=", c, bound), Block([Break()]))
+    if kind == "for_noinit":
+        return [Decl(INT, ctr, I(0)), For(None, B("<", c, bound), Affix("++", True, c), Block(flowsite + body))]
+    if kind == "for_nocond":
+        return [For(Decl(INT, ctr, I(0)), None, Affix("++", True, c), Block([leave] + flowsite + body))]
+    if kind == "for_nostep":
+        return [For(Decl(INT, ctr, I(0)), B("<", c, bound), None, Block([inc] + flowsite + body))]
+    if kind == "for_empty":
+        return [Decl(INT, ctr, I(0)), For(None, None, None, Block([leave, inc] + flowsite + body))]
     # while/do: counter runs 1..bound inside the body (incremented first)
     if kind == "while":
         return [Decl(INT, ctr, I(0)), While(B("<", c, bound), Block([inc] + flowsite + body))]
@@ -257,7 +267,7 @@ def _loop(kind, ctr, bound, body, flowsite):
 
 def flow_cases():
     out = []
-    kinds = ("for", "while", "do")
+    kinds = ("for", "while", "do", "for_noinit", "for_nocond", "for_nostep", "for_empty")
     n, k = V("n", INT), V("k", INT)
     P = [(INT, "n"), (INT, "k")]
     inputs = [({"n": a, "k": b}, {}) for a in (1, 3, 5) for b in (0, 1, 2, 4, 9)]
